@@ -14,6 +14,7 @@ def build(u):
     u.env("initopts_env.rs")
     u.raw("pub mod options {\nuse super::*;\n")
     u.item(o, "Value", "enum", extra_attr=None)
+    u.derived(o, "Value", "Clone", "options")
     u.raw("}\n")
     u.raw("use options::Value as OValue;\nuse serde_json::Value as JValue;\n")
     u.spec("initopts.rs")
